@@ -11,16 +11,28 @@ def Tfin : Path → Bool
   | .final _ => true
   | .finalLin _ => true
   | .tpm _ => true
+  | .finalGz _ => true
   | _ => false
+
+theorem Tfin_finalOf (cfg : Cfg) (s : Stream) : Tfin (finalOf cfg s) = true := by
+  unfold finalOf; split <;> rfl
+
+theorem finalOf_cases (cfg : Cfg) (s : Stream) : finalOf cfg s = .final s ∨ finalOf cfg s = .finalGz s := by
+  unfold finalOf; split <;> simp
 
 theorem mem_aggInit {cfg : Cfg} {main lin : Stream → Path} {e : Ev} (h : e ∈ aggInit cfg main lin) :
     ∃ s, e = .create (main s) ∨ e = .create (lin s) := by
   simp only [aggInit, List.mem_append, List.mem_map, List.mem_flatMap, List.mem_cons, List.not_mem_nil, or_false] at h
-  rcases h with ((((⟨s, _, rfl⟩ | ⟨s, _, rfl⟩) | ⟨s, _, rfl⟩) | rfl) | ⟨s, _, rfl | rfl⟩) | ⟨s, _, rfl⟩
+  rcases h with (((((((⟨s, _, rfl⟩ | ⟨s, _, rfl⟩) | ⟨s, _, rfl⟩) | ⟨s, _, rfl⟩) | ⟨s, _, rfl⟩) | ⟨s, _, rfl | rfl⟩) |
+    ⟨s, _, rfl⟩) | ⟨s, _, rfl | rfl⟩) | ⟨s, _, rfl⟩
   · exact ⟨s, Or.inl rfl⟩
   · exact ⟨s, Or.inl rfl⟩
   · exact ⟨s, Or.inl rfl⟩
-  · exact ⟨_, Or.inl rfl⟩
+  · exact ⟨s, Or.inl rfl⟩
+  · exact ⟨s, Or.inl rfl⟩
+  · exact ⟨s, Or.inl rfl⟩
+  · exact ⟨s, Or.inr rfl⟩
+  · exact ⟨s, Or.inl rfl⟩
   · exact ⟨s, Or.inl rfl⟩
   · exact ⟨s, Or.inr rfl⟩
   · exact ⟨s, Or.inl rfl⟩
@@ -46,14 +58,16 @@ theorem constructPre_stage {cfg : Cfg} {fs : FS} (h : J cfg fs) (hsv : SavesOK c
       (∀ p, Tfin p = false → (runActs (constructPre cfg fs) fs).fs p = fs p) := by
   unfold constructPre
   have hinfo : fs.good .info = true := hsv.1
-  have hck : ChecksOK (Act.exist .info :: evs (aggInit cfg Path.final Path.finalLin)) fs :=
+  have hck : ChecksOK (Act.exist .info :: evs (aggInit cfg (finalOf cfg) Path.finalLin)) fs :=
     ⟨good_has hinfo, checks_evs _ _⟩
-  have hev : eventsOf (Act.exist .info :: evs (aggInit cfg Path.final Path.finalLin)) = aggInit cfg Path.final Path.finalLin := by
+  have hev : eventsOf (Act.exist .info :: evs (aggInit cfg (finalOf cfg) Path.finalLin)) = aggInit cfg (finalOf cfg) Path.finalLin := by
     simp [eventsOf]
-  have h1 : AllP (J cfg) fs (aggInit cfg Path.final Path.finalLin) := by
+  have h1 : AllP (J cfg) fs (aggInit cfg (finalOf cfg) Path.finalLin) := by
     apply allJ_of_bodyOK (L := []) h
     · simp only [bodyOK, List.all_eq_true]
-      intro e he; obtain ⟨s, rfl | rfl⟩ := mem_aggInit he <;> simp [Ev.path, isLock, locksOf]
+      intro e he; obtain ⟨s, rfl | rfl⟩ := mem_aggInit he
+      · rcases finalOf_cases cfg s with e | e <;> simp [Ev.path, e, isLock, locksOf]
+      · simp [Ev.path, isLock, locksOf]
     · intro l hl; simp at hl
   obtain ⟨hgood, hfs⟩ := good_of_checks hck (by rw [hev]; exact h1)
   rw [hev] at hfs
@@ -61,7 +75,9 @@ theorem constructPre_stage {cfg : Cfg} {fs : FS} (h : J cfg fs) (hsv : SavesOK c
   rw [hfs]
   apply frame Tfin _ hp
   simp only [List.all_eq_true]
-  intro e he; obtain ⟨s, rfl | rfl⟩ := mem_aggInit he <;> rfl
+  intro e he; obtain ⟨s, rfl | rfl⟩ := mem_aggInit he
+  · exact Tfin_finalOf cfg s
+  · rfl
 
 /-- the files a task opens before it reads the save file (aggregator, GFF printers, its own SQANTI-like printer) -/
 def constructHead (cfg : Cfg) (c : Chr) : List Ev :=
@@ -69,10 +85,11 @@ def constructHead (cfg : Cfg) (c : Chr) : List Ev :=
 
 /-- what the recomputation of chromosome `c` writes after it read the save file, up to (excluding) the `_processed` lock -/
 def constructTail (cfg : Cfg) (c : Chr) (t : Tok) : List Ev :=
-  (ungroupedGlobal cfg).flatMap (dumpUngrouped c t) ++ (groupedGlobal cfg).flatMap (dumpGrouped c t)
+  (ungroupedGlobal cfg).flatMap (dumpUngrouped c t) ++ (profileGlobal cfg).flatMap (dumpProfile c t)
+            ++ (groupedGlobal cfg).flatMap (dumpGrouped c t) ++ (profileGrouped cfg).flatMap (dumpProfile c t)
             ++ [.create (.readStat c), .commit (.readStat c) t]
-            ++ dumpUngrouped c t .model ++ (modelGrouped cfg).flatMap (dumpGrouped c t)
-            ++ [.create (.trStat c), .commit (.trStat c) t]
+            ++ (modelUngrouped cfg).flatMap (dumpUngrouped c t) ++ (modelGrouped cfg).flatMap (dumpGrouped c t)
+            ++ (trStatPaths cfg c).flatMap (fun p => [Ev.create p, Ev.commit p t])
             ++ (printerStreams cfg).map (fun s => Ev.commit (.part s c) t)
 
 /-- the events of the recomputation of chromosome `c` up to (excluding) the `_processed` lock -/
@@ -109,27 +126,41 @@ set_option maxRecDepth 4000 in
 theorem constructBody_good (cfg : Cfg) (c : Chr) (fs : FS) :
     ∀ d ∈ chrOutputs cfg c, (applyAll fs (constructBody cfg c .good)).good d = true := by
   rw [← List.all_eq_true]
-  rcases cfg with ⟨chrs, mchrs, bchrs, genedb, rg, keepTmp, unmapped, fromSaves, sqanti, carried⟩
-  cases genedb <;> cases rg <;> cases sqanti <;>
-    simp [chrOutputs, constructBody, constructHead, constructTail, sqStreams, aggInit, printerStreams, aggPrinters, gffStreams, ungrouped, grouped, ungroupedGlobal,
-          groupedGlobal, modelGrouped, dumpUngrouped, dumpGrouped, applyAll, apply, FS.set, FS.good, Ev.path, Ev.val]
+  rcases cfg with ⟨chrs, mchrs, bchrs, genedb, rg, keepTmp, unmapped, fromSaves, sqanti, carried, countExons, noModel, gz, hm⟩
+  cases genedb <;> cases rg <;> cases sqanti <;> cases countExons <;> cases noModel <;>
+    simp [chrOutputs, constructBody, constructHead, constructTail, sqStreams, sqOn, aggInit, printerStreams, aggPrinters, gffStreams, ungrouped, grouped, ungroupedGlobal,
+          groupedGlobal, modelGrouped, modelUngrouped, profile, profileGlobal, profileGrouped, trStatPaths, dumpUngrouped, dumpGrouped, dumpProfile,
+          applyAll, apply, FS.set, FS.good, Ev.path, Ev.val]
 
 set_option maxRecDepth 4000 in
 theorem constructBody_ok (cfg : Cfg) (c : Chr) (t : Tok) : bodyOK [.processed c] (constructBody cfg c t) = true := by
-  rcases cfg with ⟨chrs, mchrs, bchrs, genedb, rg, keepTmp, unmapped, fromSaves, sqanti, carried⟩
-  cases genedb <;> cases rg <;> cases sqanti <;>
-    simp [bodyOK, constructBody, constructHead, constructTail, sqStreams, aggInit, printerStreams, aggPrinters, gffStreams, grouped, ungroupedGlobal,
-          groupedGlobal, modelGrouped, dumpUngrouped, dumpGrouped, isLock, locksOf, Ev.path]
+  rcases cfg with ⟨chrs, mchrs, bchrs, genedb, rg, keepTmp, unmapped, fromSaves, sqanti, carried, countExons, noModel, gz, hm⟩
+  cases genedb <;> cases rg <;> cases sqanti <;> cases countExons <;> cases noModel <;>
+    simp [bodyOK, constructBody, constructHead, constructTail, sqStreams, sqOn, aggInit, printerStreams, aggPrinters, gffStreams, ungroupedGlobal,
+          groupedGlobal, modelGrouped, modelUngrouped, profileGlobal, profileGrouped, trStatPaths, dumpUngrouped, dumpGrouped, dumpProfile,
+          isLock, locksOf, Ev.path]
 
 set_option maxRecDepth 4000 in
 theorem constructBody_T (cfg : Cfg) (c : Chr) (t : Tok) : (constructBody cfg c t).all (fun e => Tcon c e.path) = true := by
-  rcases cfg with ⟨chrs, mchrs, bchrs, genedb, rg, keepTmp, unmapped, fromSaves, sqanti, carried⟩
-  cases genedb <;> cases rg <;> cases sqanti <;>
-    simp [constructBody, constructHead, constructTail, sqStreams, aggInit, printerStreams, aggPrinters, gffStreams, grouped, ungroupedGlobal,
-          groupedGlobal, modelGrouped, dumpUngrouped, dumpGrouped, Tcon, Ev.path]
+  rcases cfg with ⟨chrs, mchrs, bchrs, genedb, rg, keepTmp, unmapped, fromSaves, sqanti, carried, countExons, noModel, gz, hm⟩
+  cases genedb <;> cases rg <;> cases sqanti <;> cases countExons <;> cases noModel <;>
+    simp [constructBody, constructHead, constructTail, sqStreams, sqOn, aggInit, printerStreams, aggPrinters, gffStreams, ungroupedGlobal,
+          groupedGlobal, modelGrouped, modelUngrouped, profileGlobal, profileGrouped, trStatPaths, dumpUngrouped, dumpGrouped, dumpProfile,
+          Tcon, Ev.path]
 
 theorem readStat_mem_chrOutputs (cfg : Cfg) (c : Chr) : Path.readStat c ∈ chrOutputs cfg c := by simp [chrOutputs]
-theorem trStat_mem_chrOutputs (cfg : Cfg) (c : Chr) : Path.trStat c ∈ chrOutputs cfg c := by simp [chrOutputs]
+theorem trStat_mem_chrOutputs (cfg : Cfg) (c : Chr) : ∀ p ∈ trStatPaths cfg c, p ∈ chrOutputs cfg c := by
+  intro p hp; simp only [chrOutputs, List.mem_append, List.mem_cons]; exact Or.inr (Or.inr hp)
+
+theorem checks_loads_nil {ps : List Path} {fs : FS} (h : ∀ p ∈ ps, fs.good p = true) : ChecksOK (ps.map Act.load) fs := by
+  induction ps with
+  | nil => trivial
+  | cons p ps ih => exact ⟨h p (by simp), ih (fun q hq => h q (by simp [hq]))⟩
+
+theorem eventsOf_loads_nil (ps : List Path) : eventsOf (ps.map Act.load) = [] := by
+  induction ps with
+  | nil => rfl
+  | cons p ps ih => simpa [eventsOf] using ih
 
 theorem constructChr_stage {cfg : Cfg} (rs : Bool) {fs : FS} (h : J cfg fs) {c : Chr} (hc : c ∈ cfg.chrs)
     (hsv : SavesOK cfg fs) (hnp : rs = false → fs.has (.processed c) = false) :
@@ -144,10 +175,12 @@ theorem constructChr_stage {cfg : Cfg} (rs : Bool) {fs : FS} (h : J cfg fs) {c :
     simp only [Bool.and_eq_true] at hb
     have hg := h.2 (.processed c) hb.2
     simp only [guarded, hc, if_true] at hg
-    have hck : ChecksOK [Act.load (.multimap c), Act.load (.readStat c), Act.load (.trStat c)] fs :=
-      ⟨hmm, hg _ (readStat_mem_chrOutputs cfg c), hg _ (trStat_mem_chrOutputs cfg c), trivial⟩
-    obtain ⟨hgood, hfs⟩ := good_of_checks hck (by simp only [eventsOf]; exact h)
-    simp only [eventsOf, applyAll] at hfs
+    have hck : ChecksOK ([Act.load (.multimap c), Act.load (.readStat c)] ++ (trStatPaths cfg c).map Act.load) fs :=
+      ⟨hmm, hg _ (readStat_mem_chrOutputs cfg c), checks_loads_nil (fun p hp => hg _ (trStat_mem_chrOutputs cfg c p hp))⟩
+    have hev0 : eventsOf ([Act.load (.multimap c), Act.load (.readStat c)] ++ (trStatPaths cfg c).map Act.load) = [] := by
+      simp [eventsOf, eventsOf_loads_nil]
+    obtain ⟨hgood, hfs⟩ := good_of_checks hck (by rw [hev0]; exact h)
+    simp only [hev0, applyAll] at hfs
     exact ⟨hgood, by rw [hfs]; exact hb.2, fun p _ => by rw [hfs]⟩
   · have hb' : (rs && fs.has (.processed c)) = false := by simpa using hb
     have hnproc : fs.has (.processed c) = false := by
